@@ -1906,9 +1906,11 @@ pub(crate) fn gen_op(s: &mut Src, m: &mut Model, ops: &mut Vec<Op>) {
         30 => {
             // a short view of the tail of a (shared) buffer, then growth of that view: the view's
             // offset is large compared with its length, and the buffer has little room behind it
-            let k = s.below(12).min(cur.len());
+            // (views of <= 8 bytes are inline copies: keep most of them longer than that)
+            let k = if s.chance(200) { 9 + s.below(24) } else { s.below(12) }.min(cur.len());
             let off = boundary_down(f, &cur, cur.len() - k);
-            let len = boundary_down(f, &cur[off..], s.below(cur.len() - off + 1));
+            let room = cur.len() - off;
+            let len = boundary_down(f, &cur[off..], if room > 9 && s.chance(200) { 9 + s.below(room - 8) } else { s.below(room + 1) });
             let dst = (live + 1 + s.below(SLOTS - 1)) % SLOTS;
             emit(m, ops, Op::Sub { dst, src: live, off: off as u32, len: len as u32, checked: true });
             let n = if s.bool() { 1 + s.below(9) } else { gen_len(s) };
